@@ -3,7 +3,7 @@
 //! Twin worlds: the same scene (fixed parameters, immediate starts, no commands
 //! in flight) is built in three worlds that differ only in the internal buffer
 //! size and in how the device partitions its callbacks; the rendered streams are
-//! compared frame by frame - bit-for-bit without recursive effects, |d| <= 1e-6
+//! compared frame by frame - bit-for-bit without recursive effects, |d| <= 1e-6 + 1e-4 |x|
 //! with them.
 
 use serde::{Deserialize, Serialize};
@@ -30,7 +30,7 @@ pub struct Case {
 	pub worlds: Vec<(usize, Vec<usize>)>,
 }
 
-fn fixed_effect(g: &mut G, depth: usize) -> EffectSpec {
+pub fn fixed_effect(g: &mut G, depth: usize) -> EffectSpec {
 	let rng = &mut *g.rng;
 	match rng.below(8) {
 		0 => EffectSpec::Filter {
@@ -345,7 +345,7 @@ pub fn run_case(case: &Case) -> CaseResult {
 				break;
 			}
 			for (j, (x, y)) in base.iter().zip(s.iter()).enumerate() {
-				let bad = if recursive { (x - y).abs() > 1e-6 || x.is_nan() != y.is_nan() } else { x != y && !(x.is_nan() && y.is_nan()) };
+				let bad = if recursive { !((x - y).abs() <= 1e-6 + 1e-4 * x.abs().max(y.abs())) && !(x.is_nan() && y.is_nan()) } else { x != y && !(x.is_nan() && y.is_nan()) };
 				if bad {
 					res.fail(Violation::new(
 						"twin-worlds",
